@@ -24,7 +24,10 @@ of /repo and /verif, `tools/mutant.py`; results in `seeded/RESULTS.json`):
    `what_was_run` in `meta.json`) before keeping it. Two were rebased after later `fix:` commits touched the same
    lines (C05, C37: the delivered patch is kept as `patch_original_at_b1eb512d.diff`, the demonstration was re-run
    against the rebased patch). To run one against the registered checks: `git -C /repo apply seeded/<id>/patch.diff`,
-   `./check <id> --tier quick`, `git -C /repo checkout -- .`.
+   `./check <id> --tier quick`, `git -C /repo checkout -- .` — `tools/accept.py` does exactly that for every seed,
+   sequentially with nothing else running, and then runs the check once more on the restored tree (last column of the
+   table; `seeded/RESULTS_repo_applied.json`): all 39 are reported as VIOLATION with a failing input on the patched
+   tree, and all 39 checks exit 0 again on the restored tree.
 2. **The exact reverse of every `fix:` commit** (`seeded/selftest/<id>/unfix_*.diff`): if a repaired defect ever
    returns, the property's check must report it again (a `fixed` entry in `known_findings/` suppresses nothing).
 3. **The builders' own mutants** (`seeded/selftest/<id>/*.diff`, results in `seeded/selftest/<id>/RESULTS.txt` or
